@@ -79,6 +79,24 @@ func c20Run(x *core.Ctx) {
 		n = 30000
 	}
 	r := x.Rand(uint64(x.Shard))
+	if x.Shard < 4 {
+		// constructs nested deeper than any guard someone might put in (1200-3000 levels), well-formed and cut short: if an
+		// error comes back it is an error like the others
+		d := 1200 + r.Intn(1800)
+		for _, cse := range [][2]string{
+			{"query", strings.Repeat("{a", d) + strings.Repeat("}", d)},
+			{"query", "{a(x:" + strings.Repeat("[", d) + "1" + strings.Repeat("]", d) + ")}"},
+			{"query", "{a(x:" + strings.Repeat("{k:", d) + "1" + strings.Repeat("}", d) + ")}"},
+			{"query", "query($v:" + strings.Repeat("[", d) + "Int" + strings.Repeat("]", d) + "){a}"},
+			{"query", strings.Repeat("{a", d) + strings.Repeat("}", d/2)},
+			{"schema", "type T{f(a:" + strings.Repeat("[", d) + "Int" + strings.Repeat("]", d) + "=" + strings.Repeat("[", d) + strings.Repeat("]", d) + "):Int}"},
+			{"schema", "type T{f:" + strings.Repeat("[", d) + "Int" + strings.Repeat("]", d-1) + "}"},
+		} {
+			c := core.NewCase("parse", "grammar", cse[0], "src", cse[1])
+			x.Do(c, func() { c20Check(x, c) })
+			x.Count("deeply_nested_documents")
+		}
+	}
 	for i := 0; i < n; i++ {
 		rn := &model.Renderer{R: r.Fork(uint64(i)), BlockValue: ref.BlockStringValue, Trivia: 2}
 		switch i % 6 {
@@ -359,6 +377,15 @@ func c20Error(x *core.Ctx, entry string, err error, srcNames []string, isValidat
 	ge, ok := err.(*gqlerror.Error)
 	if !ok {
 		x.Distinct("entry-template", entry+"|plain:"+firstWords(templateOf(msg), 4))
+		named := len(srcNames) > 0
+		for _, n := range srcNames {
+			named = named && n != ""
+		}
+		if named {
+			// an error that is not a *gqlerror.Error cannot say which file it is about: from named sources that is a defect
+			// of the error, whatever its message
+			x.Violate(entry+":plain-error-from-named-source("+firstWords(templateOf(msg), 4)+")", fmt.Sprintf("%T: %s", err, msg), "an error that names "+strings.Join(srcNames, " or "))
+		}
 		return
 	}
 	// every error object is its own: what a server wrote into the extensions of an earlier error (an error code, a request
